@@ -198,6 +198,11 @@ def _(c):
         return z3.Or(um == old, z3.And(s.allow_create, um == z3.Store(old, s.relpath, True)))
     c.ensures('new-manifest-only-when-allowed-and-absent', queued_only_when_created, props=['C06', 'C10'])
 
+    def device_on_request(s):
+        md, old = s.self.manifest_device, s.old.self.manifest_device
+        return z3.If(s.store_dev, z3.Not(OptInt.is_none(md)), md == old)
+    c.ensures('device-remembered-exactly-when-asked', device_on_request, props=['C16'])
+
     c.exc_ensures('missing-file-is-an-error-unless-creating', 'FileNotFoundError',
                   lambda s: z3.Or(z3.Not(s.allow_create), True))
 
@@ -846,3 +851,83 @@ def _(c):
                                    'last': z3.BoolVal(len(getattr(s._it.ctx, 'yield_log', [])) == 1)
                                    == applies(s, s.cur.k, s.cur.d, s.path, s.recursive)},
            inv=[('every-applicable-manifest-so-far-was-yielded', lambda s: z3.Or(s.i == 0, s.last))])
+
+
+# --------------------------------------------------------------------------
+# ManifestRecursiveLoader.__init__: options, defaults and the first load (C02, C04, C14, C16, C19)
+
+OptStr_ = opt_sort(z3.StringSort())
+OptBool_ = opt_sort(z3.BoolSort())
+
+
+@contract('gemato/recursiveloader.py', 'ManifestRecursiveLoader.__init__', props=['C02', 'C14', 'C16', 'C19', 'C18'])
+def _(c):
+    c.params(self=RL, top_manifest_path=Str, verify_openpgp=Opt(Bool), openpgp_env=Opt(Any), sign_openpgp=Opt(Bool),
+             openpgp_keyid=Opt(Str), hashes=Opt(SeqT(Str)), allow_create=Bool, sort=Opt(Bool), compress_watermark=Opt(Int),
+             compress_format=Opt(Str), profile=Obj('DefaultProfile', 'EbuildRepositoryProfile', 'BackwardsCompatEbuildRepositoryProfile'),
+             max_jobs=Opt(Int), allow_xdev=Bool)
+    c.returns(NoneT)
+    c.only_raises('ManifestMismatch', 'OSError', 'UnsupportedHash', 'ManifestSyntaxError', 'ManifestUnsignedData',
+                  'AssertionError', '<opaque>')
+
+    def first_load(s, args, kwargs, raw):
+        return z3.And(args[0] == s.cur.self.top_level_manifest_filename if False else args[0] == s.self.top_level_manifest_filename,
+                      kwargs.get('allow_create') == s.allow_create, kwargs.get('store_dev') == z3.Not(s.allow_xdev),
+                      S.isnone(kwargs.get('verify_entry')) if 'verify_entry' in kwargs else z3.BoolVal(True))
+    c.site('loads-the-top-level-manifest-and-remembers-its-device-unless-crossing-is-allowed', 'self.load_manifest', first_load,
+           props=['C16', 'C02'])
+
+    def verification_default(s):
+        vo = opt_term_b(s.verify_openpgp)
+        ml = s.self.manifest_loader
+        return z3.And(ml.verify_openpgp == z3.If(OptBool_.is_none(vo), z3.BoolVal(True), OptBool_.val(vo)),
+                      ml.root_directory == s.self.root_directory)
+    c.ensures('signatures-are-verified-unless-explicitly-disabled', verification_default, props=['C02', 'C04', 'C05'])
+
+    def explicit_kept(s):
+        out = []
+        for name, O in (('sort', OptBool_), ('compress_watermark', OptInt), ('compress_format', OptStr_)):
+            given = getattr(s, name)
+            g = opt_any(given, O)
+            out.append(z3.Implies(z3.Not(O.is_none(g)), getattr(s.self, name) == g))
+        return z3.And(*out)
+    c.ensures('explicit-options-win-over-profile-defaults', explicit_kept, props=['C19'])
+    c.ensures('sorting-and-format-always-decided',
+              lambda s: z3.And(z3.Not(OptBool_.is_none(s.self.sort)), z3.Not(OptStr_.is_none(s.self.compress_format))),
+              props=['C19', 'C12'])
+
+    def plain_defaults(s):
+        """without a profile of its own (DefaultProfile) unset options become: no sorting, gz, compression left as is"""
+        isdef = s.profile.is_class('DefaultProfile')
+        return z3.Implies(isdef, z3.And(
+            z3.Implies(S.isnone(s.sort), s.self.sort == OptBool_.some(z3.BoolVal(False))),
+            z3.Implies(S.isnone(s.compress_format), s.self.compress_format == OptStr_.some(STR('gz'))),
+            z3.Implies(S.isnone(s.compress_watermark), OptInt.is_none(s.self.compress_watermark))))
+    c.ensures('plain-defaults', plain_defaults, props=['C19', 'C13'])
+
+    def signing_options(s):
+        return z3.And(s.self.sign_openpgp == opt_term_b(s.sign_openpgp),
+                      s.self.openpgp_keyid == opt_any(s.openpgp_keyid, OptStr_))
+    c.ensures('signing-options-stored-as-given', signing_options, props=['C14'])
+
+    def device(s):
+        return z3.Implies(s.allow_xdev, OptInt.is_none(s.self.manifest_device))
+    c.ensures('no-device-restriction-when-crossing-is-allowed', device, props=['C16'])
+    c.ensures('device-known-in-one-file-system-mode',
+              lambda s: z3.Implies(z3.Not(s.allow_xdev), z3.Not(OptInt.is_none(s.self.manifest_device))), props=['C16'])
+
+
+def opt_any(x, O):
+    """view of an optional parameter -> term of option sort O"""
+    from vp.contract import UnionView
+    if x is None:
+        return O.none
+    if isinstance(x, UnionView):
+        t = None
+        for g, a in reversed(x.v.alts):
+            e = O.none if isinstance(a, VNone) else O.some(a.t)
+            t = e if t is None else z3.If(g, e, t)
+        return t
+    if isinstance(x, z3.ExprRef) and x.sort() == O:
+        return x
+    return O.some(x)
